@@ -215,6 +215,9 @@ def directed_author(rng, cfg, scope):
         elif k < 0.4:
             target = list(rng.choice([b"x ", b"; "])) + target
         words = bytes(target).split(b" ") if target else []
+        if words and rng.random() < 0.15:
+            j = rng.randrange(len(words))
+            words = words[:j + 1] + [words[j]] * rng.choice([1, 1, 2]) + words[j + 1:]      # the same word again (ip route 0.0.0.0 0.0.0.0 ...)
         args = [list(b"service=shell"), list(b"cmd=" + cmd.encode())] + [list(b"cmd-arg=" + w) for w in words]
         if rng.random() < 0.3:
             args.append(list(b"cmd-arg=<cr>"))
@@ -283,6 +286,39 @@ def reuse_ref_scenarios(rng, tag, n):
             mid += session_steps(1, 1, once())               # completes; the same id again next time
         steps = a[:k] + mid + a[k:] + session_steps(1, 0, once())
         out.append({"id": "reuse-%d" % i, "cfg": cfg, "conns": [{"c": 1, "addr": "10.1.0.5"}], "steps": steps, "iso": False, "log": False})
+    return out
+
+
+def repeated_rule_scenarios(rng, tag, n):
+    """command rules that are met again and again by the same request: a rule whose only pattern does not compile (the
+    request is refused every time), and rules whose verdict depends on a word being there twice"""
+    out = []
+    for i in range(n):
+        cfg = base_cfg(rng, tag)
+        for u in cfg["users"]:
+            u.setdefault("commands", []); u.setdefault("services", [])
+            for g in u["groups"]:
+                g.setdefault("commands", []); g.setdefault("services", [])
+        bad = rng.choice(["(version|inventory", "[a", "a**", "*a", "a{2,1}"])
+        alice = [u for u in cfg["users"] if u["name"] == "alice" and "s1" in u["scopes"]][0]
+        if i % 2 == 0:
+            alice["commands"] = [{"name": "show", "match": [{"s": bad, "ast": {"t": "invalid", "s": bad}}], "action": 2},
+                                 {"name": "ping", "match": [], "action": 2}]
+            reqs = [["service=shell", "cmd=show", "cmd-arg=version"], ["service=shell", "cmd=ping", "cmd-arg=10.1.1.1"], ["service=shell", "cmd=show", "cmd-arg=inventory"]]
+        else:
+            w = rng.choice(["0.0.0.0", "10.1.1.1", "x"])
+            two = {"t": "cat", "l": word(w), "r": {"t": "cat", "l": lit(32), "r": {"t": "cat", "l": word(w), "r": {"t": "star", "r": {"t": "any"}}}}}
+            one = {"t": "cat", "l": word(w), "r": {"t": "star", "r": {"t": "any"}}}
+            alice["commands"] = [{"name": "route", "match": [{"s": render(two), "ast": two}], "action": 1},
+                                 {"name": "route", "match": [{"s": render(one), "ast": one}], "action": 2}]
+            reqs = [["service=shell", "cmd=route", "cmd-arg=" + w, "cmd-arg=" + w, "cmd-arg=gw"], ["service=shell", "cmd=route", "cmd-arg=" + w, "cmd-arg=gw"],
+                    ["service=shell", "cmd=route", "cmd-arg=" + w, "cmd-arg=" + w]]
+        steps = []
+        for k in range(3):
+            for j, a in enumerate(reqs):
+                steps += session_steps(1, (k + j) % 4, [(author("alice", [list(x.encode()) for x in a]), 0, [])])
+        steps += [dict(st, c=2) for st in steps[:len(reqs)]]
+        out.append({"id": "rules-%d" % i, "cfg": cfg, "conns": [{"c": 1, "addr": "10.1.0.5"}, {"c": 2, "addr": "10.1.0.6"}], "steps": steps, "iso": False, "log": False})
     return out
 
 
@@ -663,6 +699,8 @@ def collect(ctx, prop):
         if prop == "C09":
             for s in scen[-(40 if quick else 600):]:
                 s["iso"] = True
+    if prop in ("C11", "C14", "C07"):
+        scen += repeated_rule_scenarios(rng, tag, 20 if quick else 300)
     if prop in ("C07", "C11"):
         scen += many_args_scenarios(rng, tag, 40 if quick else 600)
     if prop == "C12":
